@@ -140,6 +140,30 @@ Proof.
   destruct (HG ob) as [_ _ _ c4]. rewrite Forall_forall in c4. now apply c4.
 Qed.
 
+(* what the return values mean, per object (mixed version of nonblocking_true_iff_consumed,
+   timed_true_iff_consumed and sliding_wait_only_if) *)
+Theorem return_values_mixed kind sched v lo md progs : (forall ob, 0 <= v ob) -> wf_mprogs progs ->
+  forall ob e, In e (slog (objs (fst (mx_run kind sched v lo md progs)) ob)) ->
+  (ev_op e = TryAcquire ->
+     (ev_res e = true <-> 1 <= ev_avail e) /\ (ev_res e = true <-> ev_taken e = 1) /\ (ev_res e = false <-> ev_taken e = 0)) /\
+  (forall n, 0 < n -> ev_op e = TryWait n ->
+     (ev_res e = true <-> n <= ev_avail e) /\ (ev_res e = true <-> ev_taken e = n) /\ (ev_res e = false <-> ev_taken e = 0)) /\
+  (forall n, 0 < n -> ev_op e = TimedAcquire n ->
+     (ev_res e = true <-> ev_taken e = n) /\ (ev_res e = false <-> ev_taken e = 0) /\ (ev_res e = true -> n <= ev_avail e)) /\
+  (forall n, ev_op e = Acquire n -> ev_res e = true /\ ev_taken e = n /\ n <= ev_avail e) /\
+  (forall u, ev_op e = SlWait u -> ev_res e = true /\ u - ev_maxd e <= ev_lower e) /\
+  (forall u, ev_op e = SlTryWait u -> (ev_res e = true <-> u - ev_maxd e <= ev_lower e)).
+Proof.
+  intros Hv Hw ob e He. pose proof (log_meaning_mixed kind sched v lo md progs Hv Hw ob e He) as H.
+  unfold ev_ok in H. split; [|split; [|split; [|split; [|split]]]].
+  - intros Ho. rewrite Ho in H. destruct H as [H1 H2]. destruct (ev_res e); intuition (try discriminate; try lia).
+  - intros n Hn Ho. rewrite Ho in H. destruct H as [H1 H2]. destruct (ev_res e); intuition (try discriminate; try lia).
+  - intros n Hn Ho. rewrite Ho in H. destruct H as [H1 H2]. destruct (ev_res e); intuition (try discriminate; try lia).
+  - intros n Ho. rewrite Ho in H. exact H.
+  - intros u Ho. rewrite Ho in H. tauto.
+  - intros u Ho. rewrite Ho in H. tauto.
+Qed.
+
 (* a step of thread t touches the data of its current object only *)
 Lemma mx_step_other_objects kind o t G L X : cur_obj L <> Some X ->
   objs (fst (mx_tstep kind o t G L)) X = objs G X.
@@ -324,4 +348,41 @@ Proof.
   - intros t. destruct t as [|[|t]]; cbn; repeat constructor.
   - intros t. destruct t as [|[|t]]; cbn; repeat constructor; cbn; lia.
   - vm_compute. repeat split; reflexivity.
+Qed.
+
+(* ------------------------------------------------------------------ what exactly is shared *)
+(* one base step of thread t changes the agent of: t itself (suspend), the head of the cv queue of
+   ITS object (notify_one -> resume), the popped waiter an OS-thread resume is waiting for, or the
+   target of a StaleResume — and of nobody else *)
+Lemma sem_tstep_agent_frame kind o t g l u :
+  u <> t -> hd_error (queue g) <> Some u ->
+  (forall chk k, pc l <> ResWait u chk k) ->
+  (forall rest, todo l <> StaleResume u :: rest) ->
+  ag (fst (sem_tstep kind o t g l)) u = ag g u.
+Proof.
+  intros Ht Hq Hr Hs. destruct l as [td p]. cbn [pc todo] in *.
+  unfold sem_tstep, sl_notify, wait_or_take, fail_op, notify, after_resume, finish_sig, take. cbn [pc todo].
+  destruct p as [|c|c|n|chk k|w chk k]; [destruct td as [|[] ?]| | |destruct o| |];
+    repeat match goal with
+           | |- context [if ?b then _ else _] => destruct b eqn:?
+           | |- context [match ?x with _ => _ end] => destruct x eqn:?
+           end; cbn; try reflexivity; unfold upd;
+    match goal with |- context [Nat.eqb u ?w] => destruct (Nat.eqb u w) eqn:E; [apply Nat.eqb_eq in E; subst; exfalso|reflexivity] end;
+    try congruence; try (eapply Hs; reflexivity); try (eapply Hr; reflexivity);
+    try match goal with H : queue _ = _ :: _ |- _ => cbn in H; rewrite H in Hq end; cbn [hd_error] in Hq; congruence.
+Qed.
+
+(* the layer: a step on object A leaves the DATA of every other object alone, and changes the ONE
+   agent table only where the base step of A does *)
+Theorem mx_step_frame kind o t G L x rest : mtodo L = x :: rest ->
+  let G' := fst (mx_tstep kind o t G L) in
+  (forall X, X <> fst x -> objs G' X = objs G X) /\
+  (forall u, u <> t -> hd_error (queue (objs G (fst x))) <> Some u -> (forall chk k, mpc L <> ResWait u chk k) ->
+             snd x <> StaleResume u -> mag G' u = mag G u).
+Proof.
+  intros Hm G'. subst G'. unfold mx_tstep. rewrite Hm. cbn [fst objs mag]. split.
+  - intros X HX. now apply updo_other.
+  - intros u Hu Hq Hr Hs.
+    rewrite (sem_tstep_agent_frame kind o t (view G (fst x)) (cur_view L) u); auto.
+    unfold cur_view. cbn [todo]. rewrite Hm. intros r0 E. injection E as E _. congruence.
 Qed.
